@@ -11,7 +11,7 @@ use crate::quantity::Quantity;
 use crate::typechecker::type_scheme::TypeScheme;
 use crate::typed_ast::{self, DTypeFactor, Type};
 use crate::unit::{Unit, UnitFactor};
-use crate::value::{FunctionReference, Value};
+use crate::value::Value;
 
 pub type VRational = (i128, i128);
 
@@ -94,11 +94,7 @@ pub fn value(v: &Value) -> VValue {
         Value::Boolean(b) => VValue::Bool(*b),
         Value::String(s) => VValue::String(s.to_string()),
         Value::DateTime(dt) => VValue::DateTime(dt.to_string()),
-        Value::FunctionReference(r) => VValue::Function(match r {
-            FunctionReference::Foreign(n) => format!("foreign:{n}"),
-            FunctionReference::Normal(n) => format!("normal:{n}"),
-            FunctionReference::TzConversion(n) => format!("tz:{n}"),
-        }),
+        Value::FunctionReference(r) => VValue::Function(r.to_string()),
         Value::FormatSpecifiers(s) => VValue::FormatSpecifiers(s.as_ref().map(|s| s.to_string())),
         Value::StructInstance(info, values) => VValue::Struct(
             info.name.to_string(),
